@@ -64,6 +64,19 @@ def install(ex):
         raise Unsupported('DataFrame column read %r' % (key,))
     ex.ext_index_handlers['DataFrameVal'] = df_index
 
+    def df_attr(ex_, df, attr, line):
+        from bsvc.values import StubMethod, Stub
+        if attr == 'get':
+            def get(ex__, key, default=None):
+                if key in df.extra:
+                    return df.extra[key]
+                return default
+            return StubMethod(Stub('df', methods={'get': get}), 'get')
+        if attr == 'columns':
+            return list(df.order)
+        raise Unsupported('DataFrame attribute %s' % attr)
+    ex.ext_attr_handlers['DataFrameVal'] = df_attr
+
     def allclose(ex_, args, kwargs, line):
         # abstract: whether the two operands are element-wise close is an arbitrary boolean here
         return ex_.fresh('np_allclose', BOOL)
